@@ -262,10 +262,24 @@ class Kernel:
         sys.settrace(None)
         self.active = False
 
-    def crash(self):
-        """Process-death fault: no simulated thread runs another step."""
+    def crash_now(self):
+        """Process-death fault at the current instruction of the current thread: no simulated thread runs another
+        step; the workload (adopted main) thread regains control with SimStop('crash') to inspect what survived."""
+        me = self.cur()
         self.killing = True
-        self.active = False
+        self._request_stop('crash')
+        main = self.main
+        if me is main:
+            raise SimStop('crash', None)
+        # hand the baton to the parked main thread; this thread dies without passing it on
+        if main._state == 'runnable' and main in self.runnable:
+            self.runnable.remove(main)
+        main._wait_token += 1
+        main._wake_reason = 'stop'
+        main._state = 'running'
+        self.current = main
+        main._baton.release()
+        raise SimKilled()
 
 
 K = None  # the kernel of this process' current run
